@@ -6,7 +6,7 @@ from common import *
 
 ID = 'C09'
 COQ_FILES = ['Base/Mat.v', 'Base/SumQ.v', 'Model/Clustering.v', 'Proofs/ClusteringSpec.v', 'Proofs/Clustering.v',
-             'Proofs/ClusteringRange.v', 'Proofs/ClusteringSign.v', 'Proofs/ClusteringCount.v', 'Properties/C09.v']
+             'Proofs/ClusteringRange.v', 'Proofs/ClusteringSign.v', 'Proofs/ClusteringCount.v', 'Proofs/ClusteringSelfloop.v', 'Properties/C09.v']
 THEOREMS = ['C09_diag_cube_is_triples', 'C09_cbrt_laws', 'C09_cbrt_mul', 'C09_cc_bu_def', 'C09_cc_bd_fagiolo', 'C09_cc_wu_onnela',
             'C09_cc_wd_def', 'C09_cc_wu_sign_def', 'C09_cc_zhang_def', 'C09_cc_costantini_def',
             'C09_trans_bu_def', 'C09_trans_bd_def', 'C09_trans_wu_def', 'C09_trans_wd_def',
@@ -15,7 +15,7 @@ THEOREMS = ['C09_diag_cube_is_triples', 'C09_cbrt_laws', 'C09_cbrt_mul', 'C09_cc
             'C09_range_01_trans', 'C09_no_division_by_zero',
             'C09_cuberoot_is_cube_root', 'C09_cuberoot_odd', 'C09_wu_sign_code', 'C09_wu_sign_no_triangle_zero',
             'C09_wu_sign_deg_lt2_zero', 'C09_range_01_zhang', 'C09_range_costantini', 'C09_no_division_by_zero_sign',
-            'C09_tri_dir_counts', 'C09_cc_bd_counting', 'C09_tri_dir_weighted_enumeration']
+            'C09_tri_dir_counts', 'C09_cc_bd_counting', 'C09_tri_dir_weighted_enumeration', 'C09_deg_lt2_zero_any_diagonal']
 RULE = ('all undirected 0/1 graphs n<=4 (quick) / n<=5 (thorough) and all digraphs n<=3 / n<=4 with empty diagonal; '
         'all weighted graphs n=3 (und. 4 weight values; directed 3 values) and n=4 (und., 3 values; every 5th in quick), random weighted graphs n<=8 (undirected, directed, signed) with weights m^3/512, m in 1..8, so that the cube root is exact; '
         'NEGATIVE weights fed straight into clustering_coef_wu/wd and transitivity_wu/wd (random + every sign pattern on K3 and K4-e), '
@@ -26,7 +26,9 @@ RULE = ('all undirected 0/1 graphs n<=4 (quick) / n<=5 (thorough) and all digrap
 ASSUMES = ['weights are perfect cubes (m/N)^3: the exact cube root used by the extracted model (the code\'s sign/abs decomposition around the integer cube '
            'root of numerator and denominator) is the true cube root; values through cube roots / quotients are compared with tolerance 1e-9',
            'with non-cube weights only the implementation is compared (float oracle); with negative weights the [0,1] range clause is replaced by [-1,1]',
-           'empty diagonal (the property\'s domain); clustering_coef_wu_sign is also fed nonzero diagonals because it clears them itself']
+           'empty diagonal (the property\'s domain); clustering_coef_wu_sign is also fed nonzero diagonals because it clears them itself; '
+           'outside the domain, 0/1 matrices WITH self-connections are fed to the per-node routines for the one clause proved there '
+           '(C09_deg_lt2_zero_any_diagonal: at most one neighbour, the node itself counted -> exactly 0; all values finite)']
 TRUSTED = ['cbrt is a Section variable in the proofs (hypothesis: a cube root of the entries at hand; 0, 1, odd, monotone, multiplicative are derived); '
            'the extracted model is run with cuberoot(cbrt_exact) = sign(x) * exact root of |x|, which satisfies it only on quotients of perfect cubes (the generated weights)']
 
@@ -470,6 +472,28 @@ class Bag:
         self.lines.append('cbrt ' + enc_q(x)); self.pend.append(('cbrt', 'cuberoot', case, y))
 
     # ---- per input kind
+    def selfloop_zero(self, A, family=''):
+        """OUTSIDE the property's domain (0/1 matrix WITH self-connections), the clause that survives there
+        (C09_deg_lt2_zero_any_diagonal, true since the repair 366dab6): a node with at most one index j -- j = i counts --
+        with A[i][j] != 0 or A[j][i] != 0 gets exactly 0 from the per-node routines, and every value is finite"""
+        ctx, bct = self.ctx, self.bct
+        A = [[F(x) for x in row] for row in A]
+        n = len(A)
+        sym = all(A[i][j] == A[j][i] for i in range(n) for j in range(n))
+        few = [sum(1 for j in range(n) if A[i][j] != 0 or A[j][i] != 0) < 2 for i in range(n)]
+        for fn in ('clustering_coef_bd', 'clustering_coef_wd') + (('clustering_coef_bu', 'clustering_coef_wu') if sym else ()):
+            case = {'fn': fn, 'W': strs(A), 'selfloops': True}
+            ctx.case(case, nontrivial=any(few)); ctx.count('%s:selfloop' % fn)
+            if family:
+                ctx.count('family:' + family)
+            try:
+                C = np.asarray(call(getattr(bct, fn), npm(A)), dtype=float).ravel(); tie_variants(case)
+            except Exception as e:
+                ctx.fail(fn + ':raises', 'raised %r' % e, case); continue
+            bad = [i for i in range(n) if few[i] and C[i] != 0.0]
+            ctx.check(not bad, fn + ':deg_lt2_zero_selfloop', 'node(s) %r have at most one neighbour (self-connection counted) but C=%r' % (bad, C.tolist()), case)
+            ctx.check(bool(np.all(np.isfinite(C))), fn + ':finite_selfloop', 'non-finite value: %r' % C.tolist(), case)
+
     def und_binary(self, A, family=''):
         A = [[F(x) for x in row] for row in A]
         self.vec('clustering_coef_bu', 'cc_bu', A, o_cc_bu(A), family=family)
@@ -537,6 +561,26 @@ def run(ctx):
         for (i, j), w in zip(cells3, ws):
             W[i][j] = w
         B.dir_weighted(W, family='exhaustive_weighted_dir')
+
+    # ---- outside the domain: 0/1 matrices WITH self-connections, the zero clause that holds there
+    for n in range(1, ctx.scale(3, 4) + 1):
+        for gen in (all_und, all_dir):
+            if gen is all_dir and n > ctx.scale(2, 3):
+                continue
+            for A0 in gen(n):
+                for bits in itertools.product((0, 1), repeat=n):
+                    if any(bits):
+                        A = [row[:] for row in A0]
+                        for i, b_ in enumerate(bits):
+                            A[i][i] = b_
+                        B.selfloop_zero(A, family='exhaustive_selfloop')
+    for t in range(ctx.scale(12, 120)):
+        n = int(r.randint(3, 9))
+        A = rand_und(r, n, float(r.choice([0.15, 0.3]))) if t % 2 else rand_dir(r, n, 0.2)
+        for i in range(n):
+            if r.rand() < 0.4:
+                A[i][i] = F(1)
+        B.selfloop_zero(A, family='random_selfloop')
 
     # ---- random binary / weighted / signed, triangle-free families, isolated nodes
     N = ctx.scale(60, 600)
